@@ -4,6 +4,7 @@ import (
 	"encoding/json"
 	"net/netip"
 	"os"
+	"strings"
 )
 
 // C10 — parsed $dnsrewrite values always have the published shape.
@@ -74,6 +75,59 @@ func verifRewriteSame(a, b *DNSRewrite) bool {
 	return false
 }
 
+// verifDecimal16: s is a decimal number below 65536 written with digits only; returns its value.
+func verifDecimal16(s string) (uint16, bool) {
+	if len(s) == 0 || len(s) > 5 {
+		return 0, false
+	}
+	v := 0
+	ok := true
+	for i := 0; i < len(s); i++ {
+		if s[i] < '0' || s[i] > '9' {
+			ok = false
+		}
+		v = v*10 + int(s[i]-'0')
+	}
+	if !ok || v > 65535 {
+		return 0, false
+	}
+	return uint16(v), true
+}
+
+func verifField(s string, k int) string {
+	// the k-th blank-separated field of s
+	start, idx := 0, 0
+	for i := 0; i <= len(s); i++ {
+		if i == len(s) || s[i] == ' ' {
+			if idx == k {
+				return s[start:i]
+			}
+			idx++
+			start = i + 1
+		}
+	}
+	return ""
+}
+
+// verifNumbersWellFormed: the numeric fields of MX / SRV / SVCB values are plain decimal
+// 16-bit numbers and are stored with their value ("malformed values are rejected").
+func verifNumbersWellFormed(rw *DNSRewrite, val string) bool {
+	switch v := rw.Value.(type) {
+	case *DNSMX:
+		n, ok := verifDecimal16(verifField(val, 0))
+		return ok && n == v.Preference
+	case *DNSSRV:
+		p, ok1 := verifDecimal16(verifField(val, 0))
+		w, ok2 := verifDecimal16(verifField(val, 1))
+		q, ok3 := verifDecimal16(verifField(val, 2))
+		return ok1 && ok2 && ok3 && p == v.Priority && w == v.Weight && q == v.Port
+	case *DNSSVCB:
+		p, ok := verifDecimal16(verifField(val, 0))
+		return ok && p == v.Priority
+	}
+	return true
+}
+
 func verifC10Check(s string) {
 	rw, err := loadDNSRewrite(s)
 	if err != nil {
@@ -83,6 +137,9 @@ func verifC10Check(s string) {
 	}
 	verifReach("c10.accepted")
 	verifAssert(verifRewriteShape(rw), "c10: an accepted value has the published shape")
+	if k := strings.LastIndex(s, ";"); k >= 0 {
+		verifAssert(verifNumbersWellFormed(rw, s[k+1:]), "c10: numeric fields of an accepted value are plain decimal 16-bit numbers, stored with their value")
+	}
 	rw2, err2 := loadDNSRewrite(s)
 	verifAssert(err2 == nil && verifRewriteSame(rw, rw2), "c10: parsing is deterministic")
 }
@@ -95,7 +152,7 @@ func verifC10Short(n int, alpha int) {
 
 // verifC10Normal: rcode ; rr ; value with concrete keywords and a symbolic value.
 func verifC10Normal(rcodeIdx, rrIdx, n int, alpha int) {
-	alphabets := []string{"a1.:- =", "16.: a", "a1- ."}
+	alphabets := []string{"a1.:- =", "16.: a", "a1- .", "0x1 a", "19 0."}
 	rc := verifKeyword("rcode", rcodeIdx)
 	rr := verifKeyword("rr", rrIdx)
 	verifC10Check(rc + ";" + rr + ";" + verifString("v", n, alphabets[alpha]))
